@@ -66,7 +66,7 @@ class Leg:
 
     def __init__(self, name, check=None, strategy=None, enumerate=None, run=None,
                  examples=None, kind=None, hazard_leg=False, shards=None, exhaustive=False,
-                 max_shards=None):
+                 max_shards=None, cpu_limit=None):
         self.name = name
         self.check = check
         self.strategy = strategy
@@ -77,6 +77,7 @@ class Leg:
         self.hazard_leg = hazard_leg
         self.exhaustive = exhaustive
         self.max_shards = max_shards
+        self.cpu_limit = cpu_limit
 
 
 def h64(obj):
@@ -193,12 +194,13 @@ class Collector:
 
     def run_case(self, leg, case):
         out = self.out
-        signal.setitimer(signal.ITIMER_VIRTUAL, CASE_CPU_LIMIT)
+        limit = getattr(leg, 'cpu_limit', None) or CASE_CPU_LIMIT
+        signal.setitimer(signal.ITIMER_VIRTUAL, limit)
         try:
             res = leg.check(case)
         except HangError:
             res = Result(key=case, nontrivial=False)
-            res.fail('hang', 'cpu>%ds' % CASE_CPU_LIMIT, 'case did not finish within the CPU limit')
+            res.fail('hang', 'cpu>%ds' % limit, 'case did not finish within the CPU limit of %d s: %r' % (limit, case if len(repr(case)) < 300 else repr(case)[:300]))
         finally:
             signal.setitimer(signal.ITIMER_VIRTUAL, 0)
         out.evaluations += 1
